@@ -52,7 +52,8 @@ def sched_plan(pid, tier, seed, markbusy=False):
         for i, t in enumerate(forests(5)):
             qs.append(sched_query(pid, 5, 2, 14, tree=t, timeout=6000, markbusy=markbusy, witness=False, snbreak=i % 2))
     else:
-        for i, t in enumerate(rnd.sample(f4, 6)):
+        sel = [(2, 2, 3, 4)] + rnd.sample([t for t in f4 if t != (2, 2, 3, 4)], 5)   # (2,2,3,4): two leaves under one parent, then the root: the smallest non-path relaxed supernode
+        for i, t in enumerate(sel):
             qs.append(sched_query(pid, 4, 2, 12, tree=t, markbusy=markbusy, witness=(i == 0), snbreak=i % 2))
     return qs
 
